@@ -6,6 +6,30 @@ commits = subprocess.run(["git","-C","/repo","log","--format=%H %s"],capture_out
 hook_commits = [c.split()[0] for c in commits if c.split(" ",1)[1].startswith("verif:")]
 
 CLAIMED = {
+ "C01": dict(
+   text="Field-level codecs and the CSV record writer are proved against byte-level specifications, with the output buffer modelled as the ghost sequence of all bytes written: TSV encode/decode (length bounds, no raw tab/newline/CR ever emitted, identity on fields without special bytes, exact text of each single escape), the CSV quoting decision (field needs quotes iff it contains the delimiter, a quote, CR or LF, or is the Postgres terminator; ASCII delimiters), the CSV record writer (append-only; exact text of records of 0, 1 and 2 fields unquoted, of one field under quote-all, of a one-byte field holding each special byte, with LF and CRLF line endings), DKVPX field quoting, the JSON string encoder (never a raw control character for any input, identity between quotes on plain text, the named escapes), and the three line readers (every byte consumed is accounted for: line + one terminator, or an unterminated last line).",
+   note="Not decided: the readers' record state machines (the fork of encoding/csv, DKVPX readRecord, XTAB, PPRINT, markdown, YAML), header/schema state of the writers, implicit header/headerless/BOM options, the independent RFC-4180/IANA-TSV/RFC-8259 reader clause, records of more than two CSV fields (needs a recursive encoding function). Assumed: models of bytes.Buffer/strings.Builder/bufio.Writer/bufio.Reader.ReadString/strings.IndexAny/fmt.Sprintf (format shape only); colours off (colorizer.NoColor).",
+   ref="DESIGN.md §3.C01"),
+ "C05": dict(
+   text="The stream context is proved exactly: UpdateForStartOfFile sets FILENAME, increments FILENUM, resets FNR and keeps NR; UpdateForInputRecord increments NR and FNR and nothing else; no other context object changes; NewContext starts at zero; a record's context is a field-by-field copy taken at creation. The protocol 'count, then create' is a ghost typestate: at each of the 17 calls of NewRecordAndContext in the 15 reader functions of pkg/input the context is proved to be in the state UpdateForInputRecord leaves it in.",
+   note="Not decided: then-chaining equals piping (two processes), concatenation of files as a whole, NF mid-expression, end-block NR, compressed and prepipe inputs, that UpdateForStartOfFile is called once per file (no exit obligation could carry it through the channel operations), double counting.",
+   ref="DESIGN.md §3.C05"),
+ "C09": dict(
+   text="The collating order used by sort -n/-nr, the sorting functions, min, max and top: the 12x12 table cmp_dispositions is checked cell by cell against the documented ranking (numeric < boolean < void/string < ... < absent; a cell above the rank blocks is the constant -1 and its mirror image the constant +1), the comparison kernels are proved equal to the sign function of their operands, Cmp and the numeric comparators are proved to dispatch correctly for all 144 kind pairs and hence to obey the ranking and the value clauses, and seven lemmas show that those value clauses are antisymmetric and transitive on ints up to 2^53 and non-NaN floats (mixed int/float cases in the bit-vector encoding).",
+   note="Not decided: that the sort verb applies the comparators in precedence order (a closure passed to sort.Slice calling function values chosen by a flag switch), stability for identical key texts (grouping), the spill group of key-less records, sort_by_key/sort_by_value/sort with a user comparator, natural sort (third-party), case-folded and lexical comparators (strings.ToLower and String() of collections are library/trusted). bytes.Compare is assumed to return -1, 0 or +1.",
+   ref="DESIGN.md §3.C09"),
+ "C10": dict(
+   text="Kernels of the aggregating verbs: the percentile kernels never index outside the sorted array for any p (NaN, infinities, negative, above 100) and return the element at the clamped index; the stats1 accumulators count/null_count/sum/mean/min/max are proved against their definitions (count grows by one per value, null_count by one per empty or JSON-null value, a non-numeric value leaves sum and mean untouched, an integer running sum plus an integer value is the exact integer sum while it fits in 64 bits, Reset returns to the initial state); the grouping key escapes commas and backslashes inside values.",
+   note="Not decided: variance/skewness/kurtosis numerics (floating-point identities), percentile keeper sorting, sliding windows, merge-fields, step, top, fraction, histogram, most/least-frequent, fill-down, count-distinct as whole verbs; first-appearance order of groups (lib.OrderedMap is generic and not under contract); injectivity of the escaped key is argued, not proved (needs a recursive spec).",
+   ref="DESIGN.md §3.C10"),
+ "C11": dict(
+   text="Per-record step contracts of the selecting verbs: head (unkeyed, keyed, all-but-last-k, constructor), tail (last-k, from-start, constructor), decimate, tac, nothing. Each contract states exactly what is appended to the output list - the very record handed in, by pointer identity, exactly when the per-group counter allows it (count <= k, count > k-1, position congruent to the kept remainder) or when it is the end-of-stream marker - that earlier output entries are kept, how the per-group counters change for every group key, and for head that the downstream-done flag is sent at most once in the transformer's life; tac emits the stored records in reverse order at end of stream.",
+   note="Not decided: filter, grep, having-fields, sample, bootstrap, shuffle, group-by, group-like, uniq -a, skip-trivial-records, cat -n -g; the stream-level statements (first k, all but last k, |head|+|tail| = N) follow from the step contracts by induction on the stream, which is a paper argument; the windows of head -n -k / tail -n k are only proved safe (their content clauses need non-aliasing invariants of the per-group lists). GetSelectedValuesJoined and HandleDefaultDownstreamDone are trusted frames.",
+   ref="DESIGN.md §3.C11"),
+ "C18": dict(
+   text="Zero-annotation safety sweep: every BIF_* function, every function and method of pkg/lib, pkg/cli (including each of the 263 flag-parser closures, verified on its own under the situation FlagTable.Parse creates), pkg/types, pkg/dkvpx, pkg/output and pkg/scan gets a default contract (non-nil receivers, well-formed value arguments, argc == len(args)) and every index, slice, division, shift, type assertion, make, nil-map write, nil-function call, explicit panic and internal-coding-error assertion in it is an obligation; those that discharge are claimed. The thorough tier adds pkg/mlrval, pkg/input, pkg/runtime, pkg/transformers and pkg/transformers/utils. Loops with explicit contracts (scanners, codecs, literal unbackslashing) also carry decreases clauses.",
+   note="Not decided: obligations that need a precondition or loop invariant nobody wrote (reported as unclaimed in the evidence, never as alarms); nil dereferences; the generated lexer/parser (emptied in this tree); hangs of goroutine compositions; third-party code (strptime, YAML, natsort); termination of loops without a decreases clause.",
+   ref="DESIGN.md §3.C18"),
  "C12": dict(
    text="The record type Mlrmap (doubly-linked list + optional hash index) is verified against an abstract view kept in ghost state (seq: the sequence of entries, idx: the position of an entry): every list operation the restructuring verbs are built from - linkNewEntry, linkAtHead/Tail, Unlink, findEntry (three branches), buildIndex, Has, Get, PutReference (existing field keeps its position, new field is appended), PrependReference, Remove, pop, MoveToHead/Tail, Rename (three cases + identity), findEntryByPositionalIndex, RemoveWithPositionalIndex, Clear - has a contract 'requires well-formed, ensures well-formed and the view changes in closed form', with whole-view postconditions (every other entry keeps pointer identity, name, value and relative order), key uniqueness and the no-stale-key / every-field-indexed index invariant. Loops over the list carry invariants tied to the ghost position and a decreases clause.",
    note="Not under contract: the verbs themselves (pkg/transformers: cut, reorder, template, regularize, unsparsify, nest, reshape, ...; they need the emptied parser to compile and were not reached), PutCopy/PutReferenceAfter, Label, SortByKey, flatten/unflatten inverse laws. PutNameWithPositionalIndex is under contract but its invariant obligation does not discharge within the budget (unclaimed). Copy() trusted.",
@@ -35,7 +59,15 @@ CLAIMED = {
    note="Assumed: go/ssa construction; SMT solvers; math.Pow and other math-library functions uninterpreted (accuracy of ** not decided); float->int conversion out of range is an unspecified value (Go spec); error-constructor contracts trusted; dispatch through the disposition matrices is decided under C08, not here.",
    ref="DESIGN.md §3.C07"),
 }
-NA_REASON = "contracts not yet completed (engine under construction); see DESIGN.md §4"
+NA = {
+ "C02": "A->B->A over record streams and the equivalence of 260 keystroke-saver closures with 'their documented expansion' are not statements over one call or one data structure: the closures are verified for memory safety (C18), but a postcondition 'the closure for --c2j selects csv in, json out' could only be transcribed from the table it checks (no independent expansion table exists in the code), and the flatten/unflatten inverse law needs recursive specs over nested value trees, which the solvers do not discharge. See DESIGN.md §3.C02.",
+ "C04": "Batch-size and scheduling independence, termination and streaming are properties of goroutine compositions; the VC generator havocs the heap at go, select and channel receive, so no contract in reach can state them. Two mechanisms named by the anchors are proved under other ids (hash-index transparency of findEntry under C12, send-once of the downstream-done flag in head under C11). See DESIGN.md §3.C04.",
+ "C13": "Pairing completeness is relational over two multisets of records; the bucket keeper and the half-streaming step are long methods over the generic lib.OrderedMap and channels, and no contract written carries a pairing statement. Only the grouping-key escaping (shared with C10) is proved. See DESIGN.md §3.C13.",
+ "C15": "Character-versus-byte indexing rests on unicode/utf8, the regex functions on regexp, formatting on fmt, hashing on crypto/*: library code the engine only sees as uninterpreted functions, so a contract would be vacuous or restate the call. The backslash/hex literal scanners are proved (counted under C18) but are too small a part of the property to claim it. See DESIGN.md §3.C15.",
+ "C17": "Error delivery crosses three goroutines and two capacity-1 channels; whether some ordering loses the error is a property of all schedules, which contracts on sequential functions cannot state (the generator havocs at every receive/select). The line readers' byte accounting is proved under C01. See DESIGN.md §3.C17.",
+ "C19": "Crash consistency quantifies over crash points between os.CreateTemp, os.Rename and os.Chmod; it needs an abstract file system with event traces, which the engine does not have (only ghost counters), and processFileInPlace mixes os calls, goroutines and the whole stream. See DESIGN.md §3.C19.",
+ "C20": "Correctness of the open-file LRU depends on the whole history of target switches; MultiOutputHandlerManager and FileOutputHandler mix maps, a linked list, os files and per-file goroutines, and no invariant written for them discharged soundly. Their map/list safety obligations are in the thorough C18 sweep. See DESIGN.md §3.C20.",
+}
 
 checks = []
 for pid in ids:
@@ -63,7 +95,7 @@ m = {
               "kind_free_text": "verification-condition generator over go/ssa of /repo's working tree + Gobra-style contracts in //@ comments; obligations discharged by z3/z3-new/cvc5; models replayed on the real code with go test -overlay"}],
  "checks": checks,
  "notes": "Exit codes of ./check: 0 held (KNOWN-FINDING lines allowed), 1 violation (VIOLATION line), 3 undecided/engine error (no VIOLATION line). Claims: /verif/claims/Cxx.txt; known findings: /verif/known_findings.json.",
- "not_applicable": [{"property_id": i, "reason": NA_REASON} for i in ids if i not in CLAIMED],
+ "not_applicable": [{"property_id": i, "reason": NA[i]} for i in ids if i not in CLAIMED],
 }
 json.dump(m, open('/verif/MANIFEST.json','w'), indent=1)
 print("claimed:", sorted(CLAIMED))
